@@ -62,6 +62,13 @@ __CPROVER_ensures(self->state0 == state0_ && self->descent == descent_ && self->
 __CPROVER_ensures(self->a.t == 0.0 && NV_SAME(self->a.f, state0_->m_fx) && NV_SAME(self->a.g, state0_->dg)) \
 __CPROVER_ensures(NV_SAME(self->b.t, step_size_) && NV_SAME(self->b.f, state->m_fx) && NV_SAME(self->b.g, state->dg))
 
+/* interval_t::converged: true exactly when the tentative state is valid and a criterion pair was evaluated to true on it with
+ * the current step (a diverged state short-circuits: no predicate is evaluated) */
+#define NV_CONTRACT_cgd_converged \
+__CPROVER_requires(NV_IV_FRESH(self)) \
+__CPROVER_assigns(NV_CGD_GHOSTS) \
+__CPROVER_ensures(__CPROVER_return_value == (self->c->valid && NV_CGD_ADV(self->c, self->state0, self->step_size, c1, c2, epsilonk)))
+
 /* interval_t::done */
 #define NV_CONTRACT_cgd_done \
 __CPROVER_requires(NV_IV_FRESH(self)) \
